@@ -778,6 +778,11 @@ func (c *genCtx) trap(depth int, nn bool) *Expr {
 			pi := len(c.g.Prods) - 1
 			return Alt(Seq(el, SubP(pi)), SubP(pi))
 		}
+		if c.draw(0, 3, "elidedlook") == 0 {
+			// inside one capture a lookahead only looks at an elided token the grammar names; what is captured is
+			// what is consumed after it: @( (?= Comment) y )
+			return Cap(Seq(Look(true, el), c.leaf()))
+		}
 		x := c.leaf()
 		y := c.otherLiteral(x)
 		att := Group(rapid.SampledFrom([]string{"?", "*"}).Draw(c.t, "capmod"), Seq(el, x))
@@ -1052,6 +1057,9 @@ func Sample(t *rapid.T, g *Grammar, e *Expr, out *[]VTok, fuel *int) {
 			} else {
 				s = strings.ToLower(s)
 			}
+			if SpecialFold(s) != s && rapid.Bool().Draw(t, "specialfold") {
+				s = SpecialFold(s) // the same word with letters that fold to s / k but are longer in UTF-8
+			}
 		}
 		*out = append(*out, VTok{Type: ty, Value: s})
 	case KRef:
@@ -1099,6 +1107,11 @@ func Sample(t *rapid.T, g *Grammar, e *Expr, out *[]VTok, fuel *int) {
 		} else {
 			Sample(t, g, g.Prods[e.Prod].Expr, out, fuel)
 		}
+	case KLook:
+		// a positive lookahead for an elided token the grammar names: the token has to be there
+		if b := e.Kids[0]; !e.Neg && b.Kind == KRef && g.IsElided(b.T) {
+			Sample(t, g, b, out, fuel)
+		}
 	case KNeg, KPars:
 		if e.Kind == KPars && e.S == "N" {
 			*out = append(*out, rapid.SampledFrom(g.Prof().vocabOf("Ident")).Draw(t, "nestk"), VTok{Type: g.Prof().TypeOfText("+"), Value: "+"},
@@ -1141,7 +1154,9 @@ func GenInput(t *rapid.T, g *Grammar) []VTok {
 			// the same word in the other case: another word unless its token type is matched case-insensitively
 			if len(toks) > 0 {
 				j := rapid.IntRange(0, len(toks)-1).Draw(t, "flipat")
-				if v := toks[j].Value; v != strings.ToUpper(v) {
+				if v := toks[j].Value; SpecialFold(v) != v && rapid.Bool().Draw(t, "specialfold") {
+					toks[j].Value = SpecialFold(v)
+				} else if v != strings.ToUpper(v) {
 					toks[j].Value = strings.ToUpper(v)
 				} else {
 					toks[j].Value = strings.ToLower(v)
